@@ -396,6 +396,32 @@ def tw_ndjson_stream(n: int, i: int, j: int, blank: bool) -> bool:
     return False
 
 
+def ob_json_seq_stream(n: int, i: int, j: int) -> bool:
+    """
+    pre: 0 <= n <= 2 and 0 <= i < 3 and 0 <= j < 3
+    post: _
+    """
+    # application/json-seq (RFC 7464): each record is RS + JSON + LF; httpx's line reader splits at RS too
+    ids = [ND_IDS[i], ND_IDS[j]][:n]
+    r = Resp(200, _NOJSON, ctype="application/json-seq")
+    r._lines = []
+    for k in ids:
+        r._lines += ["", '{"id": %d}' % k]
+    items = collect(ep.DefaultClient(T(r), "http://h").tail_seq())
+    return len(items) == n and all(isinstance(x, Item) and x.id_ == k for x, k in zip(items, ids))
+
+
+def tw_json_seq_stream(n: int, i: int, j: int) -> bool:
+    """
+    pre: 0 <= n <= 2 and 0 <= i < 3 and 0 <= j < 3
+    post: _
+    """
+    r = Resp(200, _NOJSON, ctype="application/json-seq")
+    r._lines = ["", '{"id": 1}']
+    collect(ep.DefaultClient(T(r), "http://h").tail_seq())
+    return False
+
+
 SSE_TEXTS = ["hello", "5", "{}", "a b"]
 
 
